@@ -357,6 +357,9 @@ func (p *prover) canon(v ssa.Value) string {
 			return "!(" + p.canon(x.X) + ")"
 		}
 		if x.Op == token.MUL {
+			if g, ok := x.X.(*ssa.Global); ok && p.ix.c.immutableGlobalHeader(g) {
+				return "gv:" + g.Pkg.Pkg.Path() + "." + g.Name() // every load of a never-reassigned variable is the same value
+			}
 			// field of a by-value parameter that go/ssa spilled into a local
 			if fa, ok := x.X.(*ssa.FieldAddr); ok {
 				if al, ok := fa.X.(*ssa.Alloc); ok {
